@@ -927,7 +927,7 @@ func (w *world) startCluster() bool {
 	_ = os.MkdirAll(filepath.Join(dirB, "store"), 0755)
 	pb := c.Start("filerB", dirB, port, "filer", "-ip=127.0.0.1", fmt.Sprintf("-port=%d", port), "-master="+c.Master.Addr(),
 		"-defaultStoreDir="+filepath.Join(dirB, "store"), "-maxMB=1", "-saveToFilerLimit=512")
-	if !c.WaitHTTP(pa.Url()+"/", "filer A", 60) || !c.WaitHTTP(pb.Url()+"/", "filer B", 60) {
+	if !c.WaitHTTP(pa.Url()+"/", "filer A", 150) || !c.WaitHTTP(pb.Url()+"/", "filer B", 150) {
 		return false
 	}
 	w.filers = map[string]*filerEnd{}
@@ -959,7 +959,7 @@ func (w *world) startCluster() bool {
 		}
 	}
 	w.s3 = c.StartS3("")
-	if !c.WaitHTTP(w.s3.Url()+"/", "s3 gateway", 60) {
+	if !c.WaitHTTP(w.s3.Url()+"/", "s3 gateway", 150) {
 		return false
 	}
 	return true
